@@ -255,7 +255,11 @@ func (fc *FnCtx) finishExit(st *State, panicking bool, ord int, scopePos token.P
 			st.ret = savedRet
 			st.deferDepth = 0
 		} else {
+			// a deferred method/function call: if the callee is executed in place (contract `inline`), a recover()
+			// in its body is "called directly by the deferred function"
+			st.deferDepth = st.callDepth + 1
 			fc.evalCall(st, d.call)
+			st.deferDepth = 0
 		}
 		// panics raised inside deferred functions: treated as new panic exits (remaining defers still run)
 		sub = fc.pendingPanics
